@@ -25,22 +25,3 @@ Definition jenc_call (sh : Z -> list Z * Z) (o : jopts) (s : jenc_state) (ts : l
   jenc_run sh o (jenc_reset s) ts 0.
 Definition jdec_call (s : jdec_state) : jdrun_res := jdec_loop (length (jdinp s) + 2) (jdec_reset s) [].
 
-(* k successive calls of a long-lived CBOR decoder over one stream: one item per call *)
-Fixpoint dec_many (k : nat) (coerce : bool) (bs : bytes) : list (list token) * bytes :=
-  match k with
-  | O => ([], bs)
-  | S k' =>
-    match dec_run coerce bs with
-    | DOk toks rest _ => let '(items, final) := dec_many k' coerce rest in (toks :: items, final)
-    | _ => ([], bs)
-    end
-  end.
-Fixpoint jdec_many (k : nat) (bs : bytes) : list (list token) * bytes :=
-  match k with
-  | O => ([], bs)
-  | S k' =>
-    match jdec_run bs with
-    | JDOk toks rest => let '(items, final) := jdec_many k' rest in (toks :: items, final)
-    | _ => ([], bs)
-    end
-  end.
